@@ -217,52 +217,212 @@ func (p *Prog) analyzeTypestate(fn *ssa.Function, structT *types.Named, field st
 	if len(fn.Blocks) == 0 {
 		return ts
 	}
+	// Trace partitioning on boolean flags: a boolean φ (`ok := a == X || a == Y`, `allowed := false; …`)
+	// is a flag; the dataflow state is kept separately per known flag valuation, so that a later
+	// `if ok && !other` is followed only by the states in which the flags have those values, and the
+	// refinement made when the flag was computed (status ∈ {X, Y} where ok is true) is still attached.
+	var flags []*ssa.Phi
+	flagIdx := map[*ssa.Phi]int{}
+	flagsOf := map[*ssa.BasicBlock][]*ssa.Phi{}
+	for _, b := range fn.Blocks {
+		for _, in := range b.Instrs {
+			ph, ok := in.(*ssa.Phi)
+			if !ok {
+				break
+			}
+			if bt, isB := ph.Type().Underlying().(*types.Basic); isB && bt.Kind() == types.Bool && len(flags) < 12 {
+				flagIdx[ph] = len(flags)
+				flags = append(flags, ph)
+				flagsOf[b] = append(flagsOf[b], ph)
+			}
+		}
+	}
+	blank := strings.Repeat("?", len(flags))
+	parts := map[*ssa.BasicBlock]map[string]*tsState{}
+	collapsed := map[*ssa.BasicBlock]bool{}
 	zero := EnumSet(1) // zero value of the enum
 	entry := newTsState()
 	for _, a := range ts.Allocs {
 		entry.field[a] = zero
 	}
-	ts.in[fn.Blocks[0]] = entry
+	parts[fn.Blocks[0]] = map[string]*tsState{blank: entry}
+	setFlag := func(key string, ph *ssa.Phi, v byte) string {
+		bs := []byte(key)
+		bs[flagIdx[ph]] = v
+		return string(bs)
+	}
+	flagOfCond := func(c ssa.Value) (*ssa.Phi, bool) { // (flag, negated)
+		neg := false
+		for {
+			if u, ok := c.(*ssa.UnOp); ok && u.Op == token.NOT {
+				c, neg = u.X, !neg
+				continue
+			}
+			break
+		}
+		if ph, ok := c.(*ssa.Phi); ok {
+			if _, isFlag := flagIdx[ph]; isFlag {
+				return ph, neg
+			}
+		}
+		return nil, false
+	}
+	sortedKeys := func(m map[string]*tsState) []string {
+		ks := make([]string, 0, len(m))
+		for k := range m {
+			ks = append(ks, k)
+		}
+		sort.Strings(ks)
+		return ks
+	}
+	type outPart struct {
+		key string
+		st  *tsState
+	}
+	// successor states of one partition leaving block b through successor i
+	flow := func(b *ssa.BasicBlock, i int, key string, st *tsState) []outPart {
+		succ := b.Succs[i]
+		out := st.clone()
+		if iff, ok := b.Instrs[len(b.Instrs)-1].(*ssa.If); ok {
+			if ph, neg := flagOfCond(iff.Cond); ph != nil {
+				want := byte('T')
+				if (i == 0) == neg {
+					want = 'F'
+				}
+				switch key[flagIdx[ph]] {
+				case '?':
+					key = setFlag(key, ph, want)
+				case want:
+				default:
+					return nil // this valuation takes the other branch
+				}
+			} else {
+				ts.refine(iff.Cond, i == 0, out)
+			}
+		}
+		res := []outPart{{key, out}}
+		for _, ph := range flagsOf[succ] {
+			k := -1
+			for j, p := range succ.Preds {
+				if p == b {
+					k = j
+					break
+				}
+			}
+			if k < 0 {
+				continue
+			}
+			e := ph.Edges[k]
+			var next []outPart
+			for _, r := range res {
+				switch x := e.(type) {
+				case *ssa.Const:
+					v := byte('F')
+					if x.Value != nil && x.Value.String() == "true" {
+						v = 'T'
+					}
+					next = append(next, outPart{setFlag(r.key, ph, v), r.st})
+				case *ssa.Phi:
+					if _, isFlag := flagIdx[x]; isFlag {
+						next = append(next, outPart{setFlag(r.key, ph, r.key[flagIdx[x]]), r.st})
+						continue
+					}
+					next = append(next, outPart{setFlag(r.key, ph, '?'), r.st})
+				default:
+					// the flag takes the value of a condition evaluated here: one partition per outcome
+					t, f := r.st.clone(), r.st.clone()
+					ts.refine(e, true, t)
+					ts.refine(e, false, f)
+					next = append(next, outPart{setFlag(r.key, ph, 'T'), t}, outPart{setFlag(r.key, ph, 'F'), f})
+				}
+			}
+			res = next
+		}
+		return res
+	}
+	runBlock := func(b *ssa.BasicBlock, st *tsState, record bool) {
+		for _, in := range b.Instrs {
+			if record {
+				if cur, ok := ts.before[in]; ok {
+					cur.join(st)
+				} else {
+					ts.before[in] = st.clone()
+				}
+			}
+			ts.transfer(in, st)
+		}
+	}
 	work := []*ssa.BasicBlock{fn.Blocks[0]}
 	inWork := map[*ssa.BasicBlock]bool{fn.Blocks[0]: true}
 	iter := 0
 	for len(work) > 0 {
 		iter++
-		if iter > 20000 {
+		if iter > 200000 {
 			panic("typestate: no fixpoint")
 		}
 		b := work[0]
 		work = work[1:]
 		inWork[b] = false
-		st := ts.in[b].clone()
-		for _, in := range b.Instrs {
-			ts.before[in] = st.clone()
-			ts.transfer(in, st)
-		}
-		// successors
-		var iff *ssa.If
-		if len(b.Instrs) > 0 {
-			iff, _ = b.Instrs[len(b.Instrs)-1].(*ssa.If)
-		}
-		for i, succ := range b.Succs {
-			out := st.clone()
-			if iff != nil {
-				ts.refine(iff.Cond, i == 0, out)
-			}
-			if cur, ok := ts.in[succ]; !ok {
-				ts.in[succ] = out
-				if !inWork[succ] {
-					work = append(work, succ)
-					inWork[succ] = true
-				}
-			} else {
-				if cur.join(out) {
-					if !inWork[succ] {
+		for _, key := range sortedKeys(parts[b]) {
+			st := parts[b][key].clone()
+			runBlock(b, st, false)
+			for i, succ := range b.Succs {
+				for _, o := range flow(b, i, key, st) {
+					k := o.key
+					if collapsed[succ] {
+						k = blank
+					}
+					m := parts[succ]
+					if m == nil {
+						m = map[string]*tsState{}
+						parts[succ] = m
+					}
+					changed := false
+					if cur, ok := m[k]; !ok {
+						m[k] = o.st.clone()
+						changed = true
+					} else if cur.join(o.st) {
+						changed = true
+					}
+					if len(m) > 96 && !collapsed[succ] {
+						// too many valuations: give up partitioning at this block
+						all := newTsState()
+						first := true
+						for _, kk := range sortedKeys(m) {
+							if first {
+								all = m[kk].clone()
+								first = false
+							} else {
+								all.join(m[kk])
+							}
+						}
+						parts[succ] = map[string]*tsState{blank: all}
+						collapsed[succ] = true
+						changed = true
+					}
+					if changed && !inWork[succ] {
 						work = append(work, succ)
 						inWork[succ] = true
 					}
 				}
 			}
+		}
+	}
+	// the state before each instruction: the join over all valuations that reach it
+	for _, b := range fn.Blocks {
+		for _, key := range sortedKeys(parts[b]) {
+			runBlock(b, parts[b][key].clone(), true)
+		}
+		if m := parts[b]; len(m) > 0 {
+			var all *tsState
+			for _, key := range sortedKeys(m) {
+				if all == nil {
+					all = m[key].clone()
+				} else {
+					all.join(m[key])
+				}
+			}
+			ts.in[b] = all
 		}
 	}
 	return ts
@@ -304,8 +464,16 @@ func (ts *Typestate) transfer(in ssa.Instruction, st *tsState) {
 			}
 		}
 	case ssa.CallInstruction:
-		// address of a tracked alloc passed to a callee: unknown afterwards
+		// address of a tracked alloc passed to a callee: unknown afterwards, unless the callee is a
+		// repository function that (transitively) never stores to this field through a pointer
+		readOnly := false
+		if g := x.Common().StaticCallee(); g != nil && g.Blocks != nil && isProdPkgFn(g) {
+			readOnly = !ts.p.mayStoreFieldThroughPointer(g, ts.Struct, ts.Field)
+		}
 		for _, arg := range x.Common().Args {
+			if readOnly {
+				break
+			}
 			if a, ok := arg.(*ssa.Alloc); ok {
 				for _, aa := range ts.Allocs {
 					if aa == a {
@@ -442,4 +610,62 @@ func (ts *Typestate) Writes() []StatusWrite {
 		}
 	}
 	return out
+}
+
+// mayStoreFieldThroughPointer: can g, or a repository function it reaches, store to field `field` of
+// struct structT through a pointer it did not allocate itself (a field store, a whole-struct store, or
+// handing such a pointer to code outside the repository / behind an interface)?
+func (p *Prog) mayStoreFieldThroughPointer(g *ssa.Function, structT *types.Named, field string) bool {
+	key := structT.Obj().Pkg().Path() + "." + structT.Obj().Name() + "." + field
+	if p.fieldPtrWriters == nil {
+		p.fieldPtrWriters = map[string]map[*ssa.Function]bool{}
+	}
+	w, ok := p.fieldPtrWriters[key]
+	if !ok {
+		w = map[*ssa.Function]bool{}
+		isS := func(t types.Type) bool {
+			pt, ok := t.Underlying().(*types.Pointer)
+			if !ok {
+				return false
+			}
+			nt := namedOf(pt.Elem())
+			return nt != nil && nt.Obj() == structT.Obj()
+		}
+		for _, f := range p.Funcs {
+			for _, b := range f.Blocks {
+				for _, in := range b.Instrs {
+					switch x := in.(type) {
+					case *ssa.Store:
+						if fa, ok := x.Addr.(*ssa.FieldAddr); ok && isS(fa.X.Type()) && fieldName(fa.X.Type(), fa.Field) == field {
+							if _, local := fa.X.(*ssa.Alloc); !local {
+								w[f] = true
+							}
+						} else if isS(x.Addr.Type()) {
+							if _, local := x.Addr.(*ssa.Alloc); !local {
+								w[f] = true
+							}
+						}
+					case ssa.CallInstruction:
+						callee := x.Common().StaticCallee()
+						if callee != nil && callee.Blocks != nil && isProdPkgFn(callee) {
+							continue
+						}
+						for _, a := range x.Common().Args {
+							if _, local := a.(*ssa.Alloc); !local && isS(a.Type()) {
+								w[f] = true
+							}
+						}
+					}
+				}
+			}
+		}
+		p.fieldPtrWriters[key] = w
+	}
+	reach, _ := p.CG().Reach([]*ssa.Function{g}, nil)
+	for f := range reach {
+		if w[f] {
+			return true
+		}
+	}
+	return false
 }
